@@ -215,8 +215,9 @@ class Fn:
                     rest = block[i + 1:]
                     uses = [n for n in ast.walk(self.fn) if isinstance(n, ast.Name) and n.id == name
                             and isinstance(n.ctx, ast.Load)]
-                    ok = bool(rest) and all(end(s) <= pos(n) and end(n) <= end(rest[-1]) for n in uses)
-                    if ok and uses:
+                    # (an alias that is never used is NOT dropped: its binding may raise)
+                    ok = bool(rest) and bool(uses) and all(end(s) <= pos(n) and end(n) <= end(rest[-1]) for n in uses)
+                    if ok:
                         ok = False
                         for t in rest:
                             if self.inert(t):
@@ -468,8 +469,10 @@ def translate(repo):
         a = f.args
         deco = [d.id if isinstance(d, ast.Name) else None for d in f.decorator_list]
         names = [x.arg for x in a.args]
+        rebinds_cls = bool(names) and any(isinstance(n, ast.Name) and n.id == names[0] and not isinstance(n.ctx, ast.Load)
+                                          for n in ast.walk(f))
         if deco != ['classmethod'] or a.vararg or a.kwarg or a.kwonlyargs or a.posonlyargs or a.defaults \
-                or len(names) < 1 or len(set(names)) != len(names):
+                or len(names) < 1 or len(set(names)) != len(names) or rebinds_cls:
             funs.append((f.name, max(len(names) - 1, 0), ('unsupported', 'def %s(%s): decorators / signature' % (f.name, src(a)))))
         else:
             funs.append((f.name, len(names) - 1, Fn(f, mod, used).function()))
